@@ -241,12 +241,13 @@ static long nD(int tier) { return shape_count(tier); }
 static long nF(int tier) { return tier ? NCHAIN : 0; }
 static long nE(void) { return NS; }
 
+static long nG(int tier);
 static void init(int tier) { (void)tier; shape_tables(); }
 
 static long count(int tier)
 {
     shape_tables();
-    return nA() + nB() + nC() + nD(tier) + nF(tier) + nE();
+    return nA() + nB() + nC() + nD(tier) + nF(tier) + nE() + nG(tier);
 }
 
 /* ------------------------------------------------------------------ */
@@ -605,6 +606,194 @@ out:
     pm_buf_free(&got);
 }
 
+/*
+ * Family G: every tree shape up to the node bound as the global and (the
+ * mirror-indexed shape) as the per-calibration property root of a
+ * calibration file, through vnacal_save / vnacal_load.  `via_delete' builds
+ * each root with one extra map entry or list item first and deletes it
+ * again, so that empty collections are also reached the way an application
+ * reaches them.
+ */
+static int g_nmax(int tier) { return tier ? 4 : 3; }
+static long nGshape(int tier)
+{
+    long c = 0;
+    for (int n = 1; n <= g_nmax(tier); ++n)
+	c += Ncnt[n][3];
+    return c;
+}
+static pm_node *g_get(int tier, long r)
+{
+    for (int n = 1; n <= g_nmax(tier); ++n) {
+	long c = Ncnt[n][3];
+	if (r < c)
+	    return unrank_tree(n, 3, r);
+	r -= c;
+    }
+    abort();
+}
+static long nG(int tier) { return 2 * nGshape(tier); }
+
+static int g_build(vnacal_t *vcp, int ci, const pm_node *doc, int via_delete,
+	char *why, size_t wn)
+{
+    vnaproperty_t **rootp = vnacal_property_set_subtree(vcp, ci, ".");
+    if (rootp == NULL) {
+	snprintf(why, wn, "vnacal_property_set_subtree(ci=%d, '.') failed "
+		"errno=%d", ci, errno);
+	return -1;
+    }
+    if (build(rootp, doc, why, wn) != 0)
+	return -1;
+    if (via_delete && doc != NULL && doc->kind == 'm') {
+	if (vnacal_property_set(vcp, ci, "zz-extra=1") != 0 ||
+		vnacal_property_delete(vcp, ci, "zz-extra") != 0) {
+	    snprintf(why, wn, "set/delete of an extra key failed errno=%d",
+		    errno);
+	    return -1;
+	}
+    } else if (via_delete && doc != NULL && doc->kind == 'l') {
+	if (vnacal_property_set(vcp, ci, "[%d]=extra", doc->n) != 0 ||
+		vnacal_property_delete(vcp, ci, "[%d]", doc->n) != 0) {
+	    snprintf(why, wn, "set/delete of an extra item failed errno=%d",
+		    errno);
+	    return -1;
+	}
+    }
+    return 0;
+}
+
+static void run_vnacal_tree(int tier, long idx, vf_result *r)
+{
+    const long ns = nGshape(tier);
+    const int via_delete = idx >= ns;
+    const long gi = idx % ns, ci_i = ns - 1 - gi;
+    const char *path = vf_tmp("c14g.vnacal");
+    char src[600];
+    const char *repo = getenv("VERIF_REPO");
+    vnacal_t *vcp, *vcp2 = NULL;
+    pm_node *doc[2];
+    pm_buf want = { 0 }, got = { 0 }, d0 = { 0 }, d1 = { 0 };
+    char why[800];
+    int ci, ci2, ctl;
+
+    doc[0] = g_get(tier, gi);
+    doc[1] = g_get(tier, ci_i);
+    ctl = tree_has_control(doc[0]) || tree_has_control(doc[1]);
+    pm_ser(doc[0], &d0);
+    pm_ser(doc[1], &d1);
+    vf_desc(r, "family G: vnacal_save/vnacal_load%s: global properties %.300s"
+	    ", calibration properties %.300s",
+	    via_delete ? " (roots built with an extra entry that is deleted "
+	    "again)" : "", pm_show(pm_buf_str(&d0)), pm_show(pm_buf_str(&d1)));
+    pm_buf_free(&d0);
+    pm_buf_free(&d1);
+    snprintf(src, sizeof(src), "%s/src/tests/compat-V2.vnacal",
+	    repo ? repo : "/repo");
+    vf_errlog_reset(&elog);
+    vcp = vnacal_load(src, (vnaerr_error_fn_t *)vf_errfn, &elog);
+    if (vcp == NULL || (ci = vnacal_find_calibration(vcp, "default")) < 0) {
+	vf_outcome(r, "vnacal fixture-unavailable");
+	if (vcp) vnacal_free(vcp);
+	pm_free(doc[0]);
+	pm_free(doc[1]);
+	return;
+    }
+    /* the fixture's own properties go away first */
+    (void)vnacal_property_delete(vcp, -1, ".");
+    (void)vnacal_property_delete(vcp, ci, ".");
+    if (g_build(vcp, -1, doc[0], via_delete, why, sizeof(why)) != 0 ||
+	    g_build(vcp, ci, doc[1], via_delete, why, sizeof(why)) != 0) {
+	vf_fail(r, "build:vnacal", "%s", why);
+	goto out;
+    }
+    /* what was built is the document */
+    for (int which = 0; which < 2; ++which) {
+	pm_buf_reset(&want);
+	pm_buf_reset(&got);
+	pm_ser(doc[which], &want);
+	if (pm_walk(vnacal_property_get_subtree(vcp, which ? ci : -1, "."),
+		    &got, why, sizeof(why), 0) != 0 ||
+		strcmp(pm_buf_str(&got), pm_buf_str(&want)) != 0) {
+	    vf_fail(r, "build:tree-differs", "the %s tree built through the "
+		    "API is not the intended document: got %.300s want %.300s",
+		    which ? "calibration" : "global",
+		    pm_show(pm_buf_str(&got)), pm_show(pm_buf_str(&want)));
+	    goto out;
+	}
+    }
+    r->nontrivial = 1;
+    r->states = pm_count_nodes(doc[0]) + pm_count_nodes(doc[1]);
+    vf_errlog_reset(&elog);
+    errno = 0;
+    if (vnacal_save(vcp, path) != 0) {
+	if (ctl)
+	    vf_outcome(r, "G control-char save-refused");
+	else
+	    vf_fail(r, "vnacal:save-failed", "vnacal_save failed errno=%d "
+		    "(%s)", errno, elog.count ? elog.msg[0] : "no message");
+	goto out;
+    }
+    vf_errlog_reset(&elog);
+    vcp2 = vnacal_load(path, (vnaerr_error_fn_t *)vf_errfn, &elog);
+    r->transitions += 2;
+    if (vcp2 == NULL) {
+	if (ctl)
+	    vf_outcome(r, "G control-char load-refused");
+	else
+	    vf_fail(r, "vnacal:load-failed", "vnacal_load of the saved file "
+		    "failed errno=%d (%s)", errno,
+		    elog.count ? elog.msg[0] : "no message");
+	goto out;
+    }
+    ci2 = vnacal_find_calibration(vcp2, "default");
+    if (ci2 < 0) {
+	vf_fail(r, "vnacal:load-failed", "calibration 'default' missing "
+		"after save/load");
+	goto out;
+    }
+    for (int which = 0; which < 2; ++which) {
+	vnaproperty_t *t = vnacal_property_get_subtree(vcp2,
+		which ? ci2 : -1, ".");
+	pm_buf_reset(&want);
+	pm_buf_reset(&got);
+	pm_ser(doc[which], &want);
+	if (pm_walk(t, &got, why, sizeof(why), 0) != 0)
+	    vf_fail(r, "vnacal:broken-tree", "%s properties after load: %s",
+		    which ? "calibration" : "global", why);
+	else if (strcmp(pm_buf_str(&got), pm_buf_str(&want)) != 0)
+	    vf_fail(r, which ? "vnacal:roundtrip-calibration" :
+		    "vnacal:roundtrip-global", "%s properties after "
+		    "vnacal_save/vnacal_load: %.300s, document %.300s",
+		    which ? "calibration" : "global",
+		    pm_show(pm_buf_str(&got)), pm_show(pm_buf_str(&want)));
+	/* the getters agree with the document's root kind */
+	else {
+	    int ty = vnacal_property_type(vcp2, which ? ci2 : -1, ".");
+	    int cn = vnacal_property_count(vcp2, which ? ci2 : -1, ".");
+	    const pm_node *dn = doc[which];
+	    int wty = dn == NULL ? -1 : dn->kind;
+	    int wcn = dn == NULL || dn->kind == 's' ? -1 : dn->n;
+	    if (ty != wty || cn != wcn)
+		vf_fail(r, "vnacal:root-kind", "%s root after load: type "
+			"%d ('%c') count %d, document type '%c' count %d",
+			which ? "calibration" : "global", ty,
+			ty > 0 ? ty : '-', cn, wty > 0 ? wty : '-', wcn);
+	}
+    }
+    if (r->outcome[0] == '\0')
+	vf_outcome(r, "G roundtrip-ok%s%s", ctl ? " control-char" : "",
+		via_delete ? " via-delete" : "");
+out:
+    if (vcp2) vnacal_free(vcp2);
+    vnacal_free(vcp);
+    unlink(path);
+    pm_free(doc[0]);
+    pm_free(doc[1]);
+    pm_buf_free(&want);
+    pm_buf_free(&got);
+}
+
 /* ------------------------------------------------------------------ */
 /* case runner                                                         */
 /* ------------------------------------------------------------------ */
@@ -647,7 +836,10 @@ static void run(int tier, long idx, vf_result *r)
 	model = chain_get(idx);
     } else {
 	idx -= nF(tier);
-	run_vnacal((int)idx, r);
+	if (idx < nE())
+	    run_vnacal((int)idx, r);
+	else
+	    run_vnacal_tree(tier, idx - nE(), r);
 	return;
     }
     pm_ser(model, &d);
@@ -691,7 +883,10 @@ vf_driver vf_drv = {
 	"{k: v} over the string alphabet squared; C: [v1, v2]; D: every tree "
 	"shape up to the node bound labelled from the 6-string sub-alphabet; "
 	"F: depth-6 chains; E: vnacal_save/vnacal_load with the string as "
-	"global and per-calibration property); non-trivial when the tree was "
+	"global and per-calibration property; G: every tree shape of at most "
+	"3 (thorough 4) nodes as global and per-calibration property root "
+	"through vnacal_save/vnacal_load, built directly and built with an "
+	"extra entry that is deleted again); non-trivial when the tree was "
 	"built through the API, read back equal to the document, exported, "
 	"and the digest after import was compared for both import entry "
 	"points (into an empty and into an occupied root); 'states' counts "
